@@ -62,6 +62,7 @@ def cfg(n, maxr, nn, scopes, dmarcs=("off",), only1=False, devs=(), gen=False, l
 MC_QUICK = [
     ("mc2", dict(n=2, maxr=2, nn=2, scopes=2, dmarcs=("off",), only1=False)),
     ("mc1", dict(n=1, maxr=3, nn=2, scopes=4, dmarcs=("off", "quar"), only1=True)),
+    ("mc3", dict(n=3, maxr=2, nn=2, scopes=1, dmarcs=("off",), only1=False)),
 ]
 MC_THOROUGH = [
     ("mc1full", dict(n=1, maxr=3, nn=4, scopes=4, dmarcs=("off", "quar"), only1=True)),
@@ -72,10 +73,12 @@ MC_THOROUGH = [
 
 
 def load_findings():
-    p = os.environ.get("VERIF_KNOWN_C06") or os.path.join(vlib.VERIF, "known_findings.d", "C06.json")
-    if os.path.exists(p):
+    """known_findings.d/C06.json (VERIF_KNOWN_D = other directory, VERIF_KNOWN_C06 = other file: drills)."""
+    p = os.environ.get("VERIF_KNOWN_C06")
+    if p:
         return [f for f in json.load(open(p)).get("findings", []) if f.get("property") == "C06"]
-    return vlib.load_known("C06")
+    import vknown
+    return vknown.entries("C06")
 
 
 def norm_cfg(c):
@@ -164,7 +167,7 @@ def run(ctx, replay):
         # ---- (B) behaviours out of TLC (jobs run next to the exhaustive runs) ----------
         sim = dict(n=4 if thorough else 3, maxr=3, nn=3 if thorough else 2, dmarcs=("off", "quar"), only1=True,
                    devs=open_devs, lazy=False, remote=False, maxdelay=2)
-        n_sim = 3000 if thorough else 260
+        n_sim = 2000 if thorough else 260
         gens = [
             # small scopes, every behaviour (all completion orders within the delay bound)
             pool.submit(gen_job, ctx, "gen-s1", dict(n=1, maxr=2, nn=1, scopes=2, only1=True, devs=open_devs,
@@ -194,8 +197,11 @@ def run(ctx, replay):
         ctx.cov["mc_runs"] = runs
         ctx.cov["asis_counterexamples_found"] = [f.result() for f in asis]
         behs = []
-        for f in gens:
-            behs += f.result()
+        for i, f in enumerate(gens):
+            got = f.result()
+            if i == 4:      # the widest small scope is sampled (seeded); the others are replayed completely
+                got = vlib.sample(ctx.rng, got, 4000)
+            behs += got
         ctx.cov["exhaustive_small_scope_behaviours"] = len(gens[0].result()) + \
             sum(len(f.result()) for f in gens[4:])
         behs = dedup(behs)
@@ -319,13 +325,14 @@ META = {
     "technique": "TLA+ spec CheckRunner.tla model-checked by TLC; TLC-generated configurations and completion "
                  "orders replayed on the real msgpipeline.MsgPipeline (synctest-forced schedules); recorded traces "
                  "validated against CheckRunnerTrace.tla (property predicates in CheckRunnerObs.tla)",
-    "text": "TLC visits every placement of 1-2 (thorough up to 4) scripted checks on global/source/destination "
-            "blocks incl. shared checks, every verdict table inside the bound (all 256 tables for one check; <=2 "
-            "non-none cells for 2-3 checks, <=1 for 4), 1-3 recipients routed to two destination blocks, both body "
-            "paths, the DMARC quarantine action and every completion order of the parallel check calls of "
-            "CheckRunner.tla, and checks the C06 predicates in every state; the same predicates are evaluated by TLC "
-            "over traces recorded from the real pipeline driven with TLC-generated behaviours (small scope "
-            "exhaustively incl. all delay-bounded completion orders, plus simulated behaviours).",
+    "text": "TLC visits every placement of 1-3 (thorough up to 4) scripted checks on global/source/destination "
+            "blocks incl. the same check referenced from several blocks, every verdict table inside the bound "
+            "(thorough: all 256 tables for one check, <=2 non-none cells for 2-3 checks, <=1 for 4; quick: <=2 "
+            "non-none cells), 1-3 recipients routed to two destination blocks, both body paths, the DMARC "
+            "quarantine action and every completion order of the parallel check calls of CheckRunner.tla, and checks "
+            "the C06 predicates in every state; the same predicates are evaluated by TLC over traces recorded from "
+            "the real pipeline driven with TLC-generated behaviours (small scopes exhaustively incl. all "
+            "delay-bounded completion orders, plus simulated behaviours with 3-4 checks).",
     "note": "Pipeline-level binding (DeliveryTarget interface), not through the SMTP/LMTP endpoints; weak readings of "
             "DESIGN 2.5 (out-of-scope replay calls, calls during refused commands and verdicts about replayed "
             "recipients are not counted); trusted: TLC, the harness, Go toolchain.",
